@@ -278,6 +278,7 @@ def seek (f : FileH) (p : SeekFrom) : Prog (Nat × FileH) := do
 
 /-- `File::truncate` -/
 def truncate (f : FileH) : Prog FileH := do
+  setDirtyFlag true            -- the volume is marked dirty before the size in the entry changes
   let fs ← Prog.getFs
   match f.entry with
   | none => .fail .panic
